@@ -584,6 +584,7 @@ pub fn run(thorough: bool) -> Report {
     let quiet = quiet_menu();
     let forvar = forvar_menu();
     let fn2 = fn2_menu();
+    let values = values_menu();
     let mut fams = vec![];
     // (menu name, menu, statements, join layouts: 2 = all, 1 = none/all/each single, 0 = none only)
     let mut plan: Vec<(&str, &Vec<(&'static str, T)>, usize, u8)> = vec![
@@ -601,6 +602,7 @@ pub fn run(thorough: bool) -> Report {
         ("branch", &brm, 4, 2),
         ("forvar", &forvar, 5, 1),
         ("fn2", &fn2, 4, 2),
+        ("values", &values, 4, 1),
         ("quiet", &quiet, 4, 1),
         ("quiet", &quiet, 5, 0),
     ];
@@ -622,6 +624,7 @@ pub fn run(thorough: bool) -> Report {
         plan.push(("array", &arr, 6, 0));
         plan.push(("branch", &brm, 5, 2));
         plan.push(("branch", &brm, 6, 0));
+        plan.push(("values", &values, 5, 1));
     }
     for (name, menu, n, jm) in plan {
         run_family(menu, n, jm, &total);
